@@ -71,6 +71,30 @@ pub fn yield_point(site: &'static str) {
     }
 }
 
+lazy_static::lazy_static! {
+    static ref ELECTION_HOOK: std::sync::Mutex<Option<Box<dyn Fn(&'static str) + Send + Sync>>> =
+        std::sync::Mutex::new(None);
+}
+
+pub fn set_election_hook(f: Option<Box<dyn Fn(&'static str) + Send + Sync>>) {
+    *ELECTION_HOOK.lock().unwrap() = f;
+}
+
+/// The sleeps of the election wait loops: with a scheduler installed the thread is handed to
+/// it instead of sleeping (returns true), otherwise the caller sleeps.
+pub fn election_wait(site: &'static str) -> bool {
+    let guard = ELECTION_HOOK.lock().unwrap();
+    if let Some(f) = guard.as_ref() {
+        let f: &(dyn Fn(&'static str) + Send + Sync) = f.as_ref();
+        let ptr = f as *const (dyn Fn(&'static str) + Send + Sync);
+        drop(guard);
+        unsafe { (*ptr)(site) }
+        true
+    } else {
+        false
+    }
+}
+
 pub fn set_crash_hook(f: Option<Box<dyn Fn(&'static str) + Send + Sync>>) {
     *CRASH_HOOK.lock().unwrap() = f;
 }
